@@ -94,6 +94,12 @@ class C01(Check):
                 # C01 falls back to the documented first-conforming branch for its expectation
                 labels.add("fallback-first-conforming")
                 _, norm = B.encode(node, table, datum)
+            lost = self._lost_keys(node, table, datum, seg)
+            if lost:
+                raise Violation(
+                    "roundtrip-drops-data",
+                    f"datum {_short(datum)} was written under a record branch that lacks its keys {lost[0]} although the union has a conforming record branch holding them ({lost[1]}); read back {_short(got)}; schema={case['schema']!r}",
+                )
             if not B.same(got, norm):
                 raise Violation(
                     "roundtrip-mismatch",
@@ -103,6 +109,56 @@ class C01(Check):
                 labels.add("omitted-default")
             start = end
         return labels
+
+    def _lost_keys(self, node, table, datum, seg):
+        """At a union, a mapping written under a record branch that does not know some of its keys although another
+        conforming record branch of the same union holds all of them: the round trip silently drops data."""
+        try:
+            trace, _, _ = bincase.trace_of(node, table, seg)
+        except B.RefError:
+            return None
+        it = iter(trace)
+        found = []
+
+        def visit(n, d):
+            k = n["k"]
+            if k == "ref":
+                return visit(table[n["name"]], d)
+            if k == "array":
+                for x in d:
+                    visit(n["items"], x)
+            elif k == "map":
+                for v in d.values():
+                    visit(n["values"], v)
+            elif k == "record":
+                for f in n["fields"]:
+                    if f["name"] in d:
+                        v = d[f["name"]]
+                    elif "default" in f:
+                        v = B.default_datum(f["type"], table, f["default"])
+                    else:
+                        v = None
+                    visit(f["type"], v)
+            elif k == "union":
+                idx = next(it)
+                b = M.deref(n["branches"][idx], table)
+                v = d[1] if isinstance(d, tuple) else d
+                if b["k"] == "record" and hasattr(v, "keys") and not isinstance(d, tuple) and "-type" not in v:
+                    own = {f["name"] for f in b["fields"]}
+                    extra = [key for key in v.keys() if key not in own and key != "zz_extra"]
+                    if extra:
+                        for ob in n["branches"]:
+                            o = M.deref(ob, table)
+                            if o["k"] == "record" and o is not b and all(key in {f["name"] for f in o["fields"]} for key in v.keys() if key != "zz_extra") and B.conforms(o, table, v):
+                                found.append((extra, o["name"]))
+                                break
+                visit(n["branches"][idx], v)
+
+        try:
+            visit(node, datum)
+        except (StopIteration, Exception):
+            return None
+        return found[0] if found else None
 
     def nontrivial(self, labels):
         return bool(
